@@ -132,10 +132,15 @@ func (g *Gen) Lines(e Event) Group {
 			case "fail":
 				succ = " success=no exit=-13"
 			}
-			exe := []string{"/usr/bin/ls", "/usr/bin/cat", "/usr/bin/id", "/bin/sh"}[e.Tag%4]
+			exe := []string{"/usr/bin/ls", "/usr/bin/cat", "/usr/bin/id", "/usr/bin/sh"}[e.Tag%4]
+			// a script run by an interpreter: the summary's "how" is the command name, and some names look like hex
+			comm := fmt.Sprintf("x%d", e.Tag)
+			if exe == "/usr/bin/sh" {
+				comm = []string{"2048", "ABBA", "CAFE", "deploy"}[(e.Tag/4)%4]
+			}
 			gr.Shape = "SYSCALL"
-			gr.Lines = append(gr.Lines, fmt.Sprintf("type=SYSCALL msg=%s: arch=c000003e syscall=59%s a0=56430ae99960 a1=56430aea8040 a2=56430aef7f30 a3=8 items=1 ppid=%d pid=%d auid=1000 uid=1000 gid=1000 euid=1000 suid=1000 fsuid=1000 egid=1000 sgid=1000 fsgid=1000 tty=pts3%s comm=\"x%d\" exe=\"%s\" key=\"operator-commands\"",
-				st, succ, 2000+e.Tag, 4000+e.Tag, sesField(e.Sess), e.Tag, exe))
+			gr.Lines = append(gr.Lines, fmt.Sprintf("type=SYSCALL msg=%s: arch=c000003e syscall=59%s a0=56430ae99960 a1=56430aea8040 a2=56430aef7f30 a3=8 items=1 ppid=%d pid=%d auid=1000 uid=1000 gid=1000 euid=1000 suid=1000 fsuid=1000 egid=1000 sgid=1000 fsgid=1000 tty=pts3%s comm=\"%s\" exe=\"%s\" key=\"operator-commands\"",
+				st, succ, 2000+e.Tag, 4000+e.Tag, sesField(e.Sess), comm, exe))
 			if e.Args {
 				gr.Shape = "SYSCALL+EXECVE"
 				args := []string{exe, fmt.Sprintf("--tag=%d", e.Tag), "/etc/resolv.conf", "a b"}[:2+g.R.Intn(3)]
